@@ -21,7 +21,7 @@ RULE = ('threshold_proportional: all matrices over {0,1,2,3} on 1-2 nodes (p*cou
         'other utilities: all matrices over {-2,-1,0,1,2} on 3 nodes and symmetric on 4 nodes x thr in every value '
         'and midpoint; non-trivial = (matrix,p) where p*M falls on x.5, or where weights tie across the cut, or '
         'fewer connections exist than requested')
-ASSUMPTIONS = ['with copy=False the argument is passed C-ordered, Fortran-ordered, as a strided view, as float32 and as big-endian float64 (the contract and the values must not depend on layout or element type; float32 results are checked for the contract only)',
+ASSUMPTIONS = ['with copy=False the argument is passed C-ordered, Fortran-ordered, as a strided view, as well as - for every fifth matrix of a family and all matrices on 1-2 nodes - as float32, as big-endian float64 and as int64 (an integer array cannot hold 1/w or w/max: invert / normalize must then reject the in-place call with BCTParamError and, with copy=True, return the float result) (the contract and the values must not depend on layout or element type; float32 results are checked for the contract only)',
                'float64 inputs; p values are dyadic (exact products) or far from a .5 boundary',
                'expected count = round-half-up of the exact rational p*M']
 
@@ -127,13 +127,22 @@ def _check_tp(t, W, arg, p, copy, case):
     return frac == Fraction(1, 2) or tie or en > len(existing)
 
 
+ETYPES = [True]          # element-type variants for the current matrix (every fifth matrix of a family)
+
+
 def layouts(W):
     """the same matrix as a C-ordered array, a Fortran-ordered array and a strided view into a larger buffer"""
     yield 'C', W.copy()
     yield 'F', np.asfortranarray(W.copy())
+    if not ETYPES[0]:
+        big = np.zeros((2 * W.shape[0], 2 * W.shape[1]))
+        big[::2, ::2] = W
+        yield 'strided', big[::2, ::2]
+        return
     # element types other than native float64 (the alphabets are small integers: exactly representable)
     yield 'float32', W.astype(np.float32)
     yield 'bigendian', W.astype('>f8')
+    yield 'int64', W.astype(np.int64)
     big = np.zeros((2 * W.shape[0], 2 * W.shape[1]))
     big[::2, ::2] = W
     yield 'strided', big[::2, ::2]
@@ -148,8 +157,21 @@ def call_util(t, fname, case, f, W, copy, *extra):
     return out
 
 
+INT_CANNOT_HOLD = ('invert', 'normalize', 'weight_conversion[lengths]', 'weight_conversion[normalize]')
+
+
 def _call_util(t, fname, case, f, W, arg, copy, *extra):
     st, out = guarded(f, arg, *extra, copy=copy)
+    key = fname if fname != 'weight_conversion' else 'weight_conversion[%s]' % case.get('wcm')
+    if case.get('layout') == 'int64' and copy is False and key in INT_CANNOT_HOLD:
+        # an integer array cannot hold 1/w or w/max: the only honest answer to "in place" is a rejection
+        if not (st == 'exc' and isinstance(out, bct.BCTParamError)):
+            t.viol(fname, 'integer_matrix_in_place_rejected', case, observed=out, expected='BCTParamError')
+        elif not np.array_equal(arg, W):
+            t.viol(fname, 'rejected_call_leaves_argument', case, observed=arg, expected=W)
+        ref = {'invert': 'invert', 'normalize': 'normalize', 'weight_conversion[lengths]': 'invert',
+               'weight_conversion[normalize]': 'normalize'}[key]
+        return np.asarray(REF[ref](W), dtype=float)      # what the float call returns, for the caller's value checks
     if st != 'ok':
         t.viol(fname, 'raises', case, observed=out)
         return None
@@ -205,6 +227,17 @@ def check_utils(t, W, case):
                     t.viol(fname, 'involution', c, observed=back, expected=W)
             if not orc.close(out, exp):
                 t.viol(fname, 'definition', c, observed=out, expected=exp)
+            if copy:
+                # integer input with copy=True: the same values as for float input, argument untouched
+                Wi = W.astype(np.int64)
+                st, oi = guarded(getattr(bct, fname), Wi, copy=True)
+                if st != 'ok':
+                    t.viol(fname, 'raises', dict(c, layout='int64'), observed=oi)
+                else:
+                    if not orc.close(np.asarray(oi, dtype=float), exp):
+                        t.viol(fname, 'definition', dict(c, layout='int64'), observed=oi, expected=exp)
+                    if not np.array_equal(Wi, W) or Wi.dtype != np.int64:
+                        t.viol(fname, 'copy_true_argument_untouched', dict(c, layout='int64'), observed=Wi, expected=W)
             out2 = call_util(t, 'weight_conversion', dict(c, wcm=wcm),
                              lambda X, copy: bct.weight_conversion(X, wcm, copy=copy), W, copy)
             if out2 is not None and not orc.close(out2, exp):
@@ -221,6 +254,7 @@ def work(unit):
     t = Tally(PROPERTY)
     for idx in range(a, b):
         A = ss.dir_graph(n, alpha, idx) if directed else ss.und_graph(n, alpha, idx)
+        ETYPES[0] = (idx % 5 == 0) or n <= 2
         for variant in ('plain', 'diag'):
             W = with_diag(A, variant)
             base = {'family': name, 'index': idx, 'variant': variant, 'W': W}
